@@ -9,7 +9,7 @@ git worktree of /repo's HEAD (outside /repo and /verif, removed afterwards):
   2. the patch applies, the library imports and the repository's whole test-suite gives the same
      summary as on the unmodified tree;
   3. demo.py fails (exit 1) with the patch.
-Confirmed changes are copied to /verif/seeded/<ID>-<x>/ with a meta.json recording what was run.
+Confirmed changes are copied to /verif/seeded/<ID>-<x>[$INTAKE_TAG]/ with a meta.json recording what was run.
 """
 import json
 import os
@@ -52,7 +52,7 @@ def main():
                 patch, demo = os.path.join(d, 'patch.diff'), os.path.join(d, 'demo.py')
                 if not (os.path.isdir(d) and os.path.exists(patch) and os.path.exists(demo)):
                     continue
-                name = '%s-%s' % (pid, x)
+                name = '%s-%s%s' % (pid, x, os.environ.get('INTAKE_TAG', ''))
                 sh('git checkout -q -- . && git clean -qfd', cwd=wt)
                 rc0, o0 = sh('%s %s' % (PY, demo), cwd=wt)
                 rca, oa = sh('git apply %s' % patch, cwd=wt)
